@@ -47,6 +47,10 @@ fn cycle_refs<T>(this: Link<T>) -> HashMap<Link<T>, usize> {
 
     // crawl the graph
     while let Some(node) = discovered.pop() {
+        // A node that has adopted itself is discovered through both a forward
+        // and a loopback link. Visit each node once so its links are not
+        // counted twice.
+        let node = node.as_forward();
         if visited.contains(&node) {
             continue;
         }
